@@ -2,6 +2,8 @@ package main
 
 import (
 	"fmt"
+	"go/token"
+	"go/types"
 	"strings"
 
 	"golang.org/x/tools/go/ssa"
@@ -351,6 +353,48 @@ func runC20(r *Run) {
 			}
 		}
 		r.atLeast("request-cookie visitors in the module", n, 1)
+	})
+
+	r.rule("R5", "cookie names are compared exactly (E1): isDisabled answers true only behind a string equality with (or slices.Contains over) the given names", func() {
+		f := r.Fn(encPkg, "isDisabled")
+		var key *ssa.Parameter
+		for _, p := range f.Params {
+			if b, ok := p.Type().Underlying().(*types.Basic); ok && b.Info()&types.IsString != 0 {
+				key = p
+			}
+		}
+		r.need(key != nil, "isDisabled(key string, …)")
+		cut := map[edge]bool{}
+		for _, br := range branchesInOne(f) {
+			if br.Info.Other == nil {
+				continue
+			}
+			if sl, ok := br.slotFor(token.EQL); ok && (br.Info.Root == ssa.Value(key) || br.Info.Other == ssa.Value(key)) {
+				if _, isBin := stripValue(br.If.Cond).(*ssa.BinOp); isBin || true {
+					cut[edge{br.If.Block(), sl}] = true
+				}
+			}
+		}
+		isExact := func(v ssa.Value) bool {
+			if c, ok := v.(*ssa.Call); ok && strings.HasPrefix(calleeName(&c.Call), "slices.Contains") && len(c.Call.Args) == 2 && c.Call.Args[1] == ssa.Value(key) {
+				return true
+			}
+			if bo, ok := v.(*ssa.BinOp); ok && bo.Op == token.EQL && (bo.X == ssa.Value(key) || bo.Y == ssa.Value(key)) {
+				return true
+			}
+			return false
+		}
+		for _, c := range callsMatching(f, false, func(n string) bool { return strings.HasPrefix(n, "slices.Contains") }) {
+			if len(c.Common.Args) == 2 && c.Common.Args[1] == ssa.Value(key) {
+				for _, br := range ifsOnValue(f, c.Value()) {
+					if sl, ok := br.truthSlot(true); ok {
+						cut[edge{br.If.Block(), sl}] = true
+					}
+				}
+			}
+		}
+		r.check(trueOnlyBehind(f, cut, isExact), "isDisabled:exact-name-match", r.fpos(f), "a name is exempt (or counted as already seen) only when it equals a listed name byte for byte",
+			"cookie names are matched by something other than exact equality (cookie names are case-sensitive): a cookie whose name differs only in letter case from an excepted or already decrypted one passes through unencrypted / undecrypted, so client-chosen text reaches the handler")
 	})
 }
 
